@@ -320,7 +320,7 @@ func c16Query(c *core.Ctx) {
 // c16Latest: getLatestL1InfoTreeIndex (where the FEP downloader resumes its scan) is the greatest index recorded.
 func c16Latest(c *core.Ctx) {
 	checkOrdered(c, "C16-latest", []orderedSpec{
-		{"lastgersync", "processor", "getLatestL1InfoTreeIndex", "IMPORTED_GLOBAL_EXIT_ROOT", "DESC", nil, [][]string{{"L1_INFO_TREE_INDEX"}}},
+		{"lastgersync", "processor", "getLatestL1InfoTreeIndex", "IMPORTED_GLOBAL_EXIT_ROOT", "DESC", nil, [][]string{{"L1_INFO_TREE_INDEX"}}, nil},
 	})
 }
 
